@@ -221,3 +221,8 @@ def _r10_3(repo: Repo, rep: Report) -> None:
         rep.violation("R10.3", f"{M_BUILDER}::CodeBuilder.__iter_serialization_strategies", "source order " + " > ".join(map(str, got)),
                       "documented precedence: field strategy > call dialect > Config.dialect > Config.serialization_strategy > format dialect")
     rep.floor("R10.3", 5)
+
+
+_ADDENDUM = ' R10.7: Registry.get makes the innermost Annotated type the current annotated_type unconditionally and dispatches on the substituted origin. Borrowed: R13.3 (dialect cache slots are specialised by format and type arguments).'
+EXPLANATION += _ADDENDUM
+LEVEL_TEXT += _ADDENDUM
